@@ -1023,8 +1023,8 @@ m("C12", "partial-output-returned", TP,
 
         return join(stream)''')
 m("C12", "bases-swapped", "utils.py",
-  "            new = type(cls.__name__, (cls, base), {",
-  "            new = type(cls.__name__, (base, cls), {")
+  "        bases = (base, ) if issubclass(base, cls) else (cls, base)\n",
+  "        bases = (base, ) if issubclass(base, cls) else (base, cls)\n")
 m("C12", "args-dropped", "utils.py",
   "        BaseException.__init__(inst, *exc.args)",
   "        BaseException.__init__(inst, str(exc))")
